@@ -18,6 +18,7 @@ import (
 	"github.com/dave/dst/decorator/resolver/guess"
 	"pgregory.net/rapid"
 
+	"verif/internal/dsth"
 	"verif/internal/h"
 	"verif/internal/known"
 	"verif/internal/oracle"
@@ -499,6 +500,10 @@ func printFile(f *dst.File, opts ...bool) (out []byte, err error) {
 			r = decorator.NewRestorerWithImports("p", guess.New())
 		}
 		r.Extras = extras
+		if extras && !imports {
+			// (also: the FileRestorer goes on to restore another file before this one is printed)
+			return dsth.PrintThenReuse(r, f)
+		}
 		err = r.Fprint(&buf, f)
 		return buf.Bytes(), err
 	}
